@@ -189,7 +189,7 @@ def spec_accepts(ptype, cfg, v, route='inst'):
             return REJECT
         extra = ACCEPT
         if ptype == 'CalendarDateRange' and any(isinstance(x, dt.datetime) for x in v):
-            extra = EITHER
+            return REJECT          # calendar dates only, as for CalendarDate (a datetime would lose its time of day when serialized)
         kinds = {isinstance(x, dt.datetime) for x in v}
         if len(kinds) == 2:
             extra = EITHER      # mixing date and datetime
